@@ -137,7 +137,7 @@ def r_axis_binding(rule, root=None):
             elif pt.startswith("Var::V("):
                 vn = pt[len("Var::V("):-1]
                 tt = A.ftxt(body)
-                ok = "vars.get(%s)" % vn in tt and "MissingVar{var:%s}" % vn in tt and "self.scratch[index]=" in tt and "return" in tt
+                ok = "vars.get(%s)" % vn in tt and "MissingVar{var:%s}" % vn in tt and "self.scratch[index]=" in tt and ("return" in tt or ")?" in tt)
                 if ok:
                     rule.ok("tracing: Var::V looked up by its own id; missing -> MissingVar", file=SHAPE, line=arm["ln"])
                 else:
@@ -155,16 +155,25 @@ def r_axis_binding(rule, root=None):
             rule.ok("%s: transform(x, y, z, t) in axis order" % label, file=SHAPE, line=c["ln"])
         else:
             rule.bad("%s|transform-args" % label, "%s eval_raw calls transform(%s)" % (label, ", ".join(args)), A.where(fn, c))
-        # the enclosing `if let Some(t) = transform {..} else {(x,y,z)}` binds (x,y,z)
-        for i in A.find(fn["body"], "If"):
-            if any(n is c for n in A.walk(i["then"])):
-                el = A.ftxt(i.get("else"))
-                if el != "{(%s)}" % ",".join(want):
-                    rule.bad("%s|no-transform" % label, "%s eval_raw without a transform must pass (%s) through unchanged, found %s" % (label, ", ".join(want), el), A.where(fn, i))
-                else:
-                    rule.ok("%s: identity branch passes (x, y, z) through" % label)
-                if A.ftxt(i["cond"]) != "letSome(t)=transform":
-                    rule.bad("%s|transform-cond" % label, "the transform must be applied whenever one is supplied", A.where(fn, i))
+        # the choice around it: with Some(t) the transformed point, with None (x, y, z) unchanged - written as
+        # if-let / else, as a match, or as map_or
+        holder = None
+        for cand in list(A.find(fn["body"], "If")) + list(A.find(fn["body"], "Match")):
+            if any(n is c for n in A.walk(cand)):
+                holder = cand
+                break
+        if holder is not None:
+            leaves = A.branch_leaves(holder)
+            some = [(l, cx) for l, cx in leaves if any(n is c for n in A.walk(l)) or A.strip(l) is c]
+            other = [(l, cx) for l, cx in leaves if (l, cx) not in some]
+            okp = bool(some) and any(A.some_binding(p) == args[3] and A.option_source(scr) == "transform" for p, scr in some[0][1])
+            el = str(A.ftxt(A.unblock(other[0][0]))) if len(other) == 1 else "?"
+            if el != "(%s)" % ",".join(want):
+                rule.bad("%s|no-transform" % label, "%s eval_raw without a transform must pass (%s) through unchanged, found %s" % (label, ", ".join(want), el), A.where(fn, holder))
+            else:
+                rule.ok("%s: identity branch passes (x, y, z) through" % label)
+            if not okp:
+                rule.bad("%s|transform-cond" % label, "the transform must be applied whenever one is supplied", A.where(fn, holder))
     # bulk: Var::X => axes[0] ... ; scratch[a][i] = x
     ms = [m for m in A.find(b["body"], "Match") if any("Var::X" in A.unparse(a["pat"]) for a in m["arms"])]
     if len(ms) != 1:
@@ -232,11 +241,14 @@ def r_arg_checks(rule, root=None):
     else:
         rule.bad("bulk-args|lengths", "check_bulk_arguments must compare the length of every supplied slice (`vars.iter()`, all of them: evaluators copy from all) with the first and report MismatchedSlices", A.where(fn))
     # ShapeBulkEval: x/y/z length mismatch reported
-    _t, b = shape_eval_fns(root)
+    _t, b0 = shape_eval_fns(root)
+    b = dict(b0)
+    b["body"] = A.inline_helpers(b0, private_only=False, keep=("eval", "eval_raw"))  # a length-check helper is the same checks
     errs = []
     for i in A.find(b["body"], "If"):
         c = A.ftxt(A.strip(i["cond"]))
-        if c in ("(x.len()!=y.len())", "(x.len()!=z.len())") and "returnErr(ShapeBulkEvalError::MismatchedVarSlices" in A.ftxt(i["then"]):
+        tt_ = str(A.ftxt(i["then"]))
+        if c in ("(x.len()!=y.len())", "(x.len()!=z.len())", "(y.len()!=x.len())", "(z.len()!=x.len())") and ("returnErr(ShapeBulkEvalError::MismatchedVarSlices" in tt_ or "Err(ShapeBulkEvalError::MismatchedVarSlices" in tt_):
             errs.append(c)
     if len(errs) == 2:
         rule.ok("ShapeBulkEval::eval_raw: x/y and x/z length mismatches are errors", file=SHAPE, line=b["ln"])
